@@ -326,3 +326,65 @@ class MsgGen(Gen):
                 del names[r.randrange(len(names))]
         lines = [self.msh(mtype)] + [self.seg_line(n, rich=rich) for n in names if n != 'MSH']
         return '\r'.join(lines), der, ['MSH'] + [n for n in names if n != 'MSH']
+
+
+class ConfGen(MsgGen):
+    """instances meant to conform to the standard structure: every required row present, cardinalities respected"""
+
+    def conf_ref(self, ref, level):
+        r = self.rng
+        sep = [self.ec['COMPONENT'], self.ec['SUBCOMPONENT'], None][level] if level < 3 else None
+        if not well_formed_ref(ref) or len(ref) != 6:
+            return 'x'
+        kind, rows, dt = ref[0], ref[1], ref[2]
+        if kind == 'leaf' or level >= 2:
+            if dt in self.base:
+                return self.leaf(dt, 'canon')
+            return self.text_value(False)
+        n = len(rows)
+        req = [i for i, row in enumerate(rows) if is_seq(row) and len(row) == 4 and is_seq(row[2]) and row[2][0] >= 1]
+        last = max(req + [r.choice([0, 0, 1, n - 1, r.randrange(n)])])
+        parts = []
+        for i in range(last + 1):
+            row = rows[i]
+            need = i in req or i == last
+            if need or r.random() < .3:
+                parts.append(self.conf_ref(row[1], level + 1) if row[1] is not None else 'x')
+            else:
+                parts.append('')
+        return sep.join(parts)
+
+    def conf_segment(self, name):
+        r = self.rng
+        ref = self.lib.SEGMENTS[name]
+        fs = self.ec['FIELD']
+        if not (is_seq(ref) and len(ref) >= 2 and is_seq(ref[1]) and ref[1]):
+            return name + fs + 'x'
+        rows = ref[1]
+        n = len(rows)
+        req = [i for i, row in enumerate(rows) if is_seq(row) and len(row) == 4 and row[2][0] >= 1]
+        last = max(req + [r.choice([0, 1, 2, n - 1, r.randrange(n)])])
+        fields = []
+        for i in range(last + 1):
+            row = rows[i]
+            if i in req or i == last or r.random() < .25:
+                mx = row[2][1]
+                k = 1 if mx == 1 or r.random() < .7 else 2
+                fields.append(self.ec['REPETITION'].join(self.conf_ref(row[1], 0) if row[1] is not None else 'x' for _ in range(k)))
+            else:
+                fields.append('')
+        return name + fs + fs.join(fields)
+
+    def conf_message(self, mtype, style):
+        ref = self.lib.MESSAGES[mtype]
+        der = self.derive(ref, 0, style)
+        names = self.flatten(der)
+        lines = []
+        for n in names:
+            if n == 'MSH':
+                lines.append(self.msh(mtype))
+            elif n in self.lib.SEGMENTS:
+                lines.append(self.conf_segment(n))
+            else:
+                lines.append(n + self.ec['FIELD'] + '1')
+        return '\r'.join(lines), der, names
